@@ -1,5 +1,7 @@
 import HdVerif.Proofs.SRItems
 import HdVerif.Proofs.SRItemsTie
+import HdVerif.Proofs.SRItemsDispatch
+import HdVerif.Proofs.SRItemsArgs
 /-! # C13  SR content items keep their values and parse back to the same type
 
 Property theorems only.  They are about `Model/SRItems.lean`, whose parsing side runs on the tables and
@@ -11,7 +13,7 @@ a wrong asserted value type or a changed count rule breaks these proofs.
 `Built it`: `it` was produced by one of the 15 public constructors, possibly with nested content assigned
 through the `ContentSequence` attribute (to any depth). -/
 namespace HdVerif.C13
-open HdVerif HdVerif.SRItems HdVerif.SRItemsLemmas
+open HdVerif HdVerif.SRItems HdVerif.SRItemsLemmas HdVerif.SRItemsArgs
 
 /-! ## parse ∘ serialise = id -/
 
@@ -773,6 +775,332 @@ theorem tie_reshape_widths (it : Item) :
     scoord3dValue it = (graphicData it).map (fun l => chunk Gen.scoord3dReshapeWidth l.length l) :=
   ⟨SRItemsTie.scoordValue_width it, SRItemsTie.scoord3dValue_width it⟩
 
+/-- the three parsing entry points give the item back, and the 14 other classes refuse it -/
+def RoundTrips (it : Item) (c : Cls) : Prop :=
+  it.cls = c ∧ parse (serialise it) = .ok it ∧ parseAs c (serialise it) = .ok it ∧
+  (∀ c', c' ≠ c → parseAs c' (serialise it) = .error .value) ∧
+  (has "RelationshipType" it.attrs = true → parseTop (serialise it) false true = .ok it) ∧
+  (has "RelationshipType" it.attrs = false → parseTop (serialise it) false false = .ok it)
+
+/-! ## Round 2: the dispatch tables as a bijection, the 15 × 15 refusal matrix, round trips per value type
+
+All about the tables REGENERATED from `sr/value_types.py` / `sr/enum.py` (T13s, T13se); helper lemmas in
+`Proofs/SRItemsDispatch.lean`. -/
+
+/-- **Exactly one class per value type, injectively**: every member of `ValueTypeValues` has exactly one class in
+`python_types`; two value types never share a class; the table has the 15 value types as keys and the 15 classes as
+values, each once. -/
+theorem dispatch_bijective :
+    (∀ p ∈ Gen.srValueTypes, ∃ c : Cls, Gen.srDispatch.lookup p.1 = some c.pyName ∧
+      ∀ c' : Cls, Gen.srDispatch.lookup p.1 = some c'.pyName → c' = c) ∧
+    (∀ vt1 vt2 c, Gen.srDispatch.lookup vt1 = some c → Gen.srDispatch.lookup vt2 = some c → vt1 = vt2) ∧
+    (∀ c : Cls, ∃ vtName, Gen.srDispatch.lookup vtName = some c.pyName) ∧
+    (Gen.srDispatch.map (·.1)).Nodup ∧ (Gen.srDispatch.map (·.2)).Nodup ∧ Gen.srDispatch.length = 15 := by
+  refine ⟨SRItemsDispatch.dispatch_exactly_one, SRItemsDispatch.dispatch_injective, ?_,
+    SRItemsDispatch.dispatch_shape.1, SRItemsDispatch.dispatch_shape.2.1, SRItemsDispatch.dispatch_shape.2.2.2.2.2.2.1⟩
+  intro c
+  obtain ⟨n, _, _, T⟩ := SRItemsDispatch.tableOk_of_cls c
+  exact ⟨n, T.dispatch⟩
+
+/-- **class → asserted value type is the inverse of value type → class** — and so is class → written value type:
+`C.from_dataset` asserts `vt` ⇔ `python_types[vt]` is `C` ⇔ `C.__init__` writes `vt` (any strings `c`, `vt`). -/
+theorem asserted_value_type_inverse_of_dispatch (c vt : String) :
+    (Gen.srFromDatasetAsserts.lookup c = some vt ↔ Gen.srDispatch.lookup vt = some c) ∧
+    (Gen.srCtorValueType.lookup c = some vt ↔ Gen.srDispatch.lookup vt = some c) :=
+  SRItemsDispatch.asserts_inverse_of_dispatch c vt
+
+/-- **The 15 × 15 matrix of `<Class>.from_dataset` against built items**: on the diagonal the item comes back, off the
+diagonal — any of the 14 other classes — the data set is refused with ValueError (`_assert_value_type`).  Also in the
+data-set form: whatever carries the value type of class `c'` is refused by every other class `c`. -/
+theorem wrong_class_refused_matrix :
+    (∀ {it : Item}, Built it → ∀ c : Cls, (c = it.cls → parseAs c (serialise it) = .ok it) ∧
+      (c ≠ it.cls → parseAs c (serialise it) = .error .value)) ∧
+    (∀ {c c' : Cls} {n v n' v' : String} {r r' : List String}, TableOk c n v r → TableOk c' n' v' r' → c ≠ c' →
+      ∀ (attrs : Attrs) (content : Option (List DS)), attrs.lookup "ValueType" = some (.str v') →
+        parseAs c (.mk attrs content) = .error .value) := by
+  constructor
+  · intro it h c
+    exact ⟨fun e => e ▸ parse_serialise_own_class h, SRItemsDispatch.wrong_class_refused h c⟩
+  · intro c c' n v n' v' r r' T T' hne attrs content hv
+    exact mismatching_value_type_rejected T attrs content v' hv (fun e => hne (SRItemsDispatch.tableOk_vt_injective T T' e.symm))
+
+/-- **`from_sequence([ds], is_root, is_sr)` gives a built item back IF AND ONLY IF the flags fit it** (the two existing
+theorems as one equivalence over all eight flag / relationship combinations) -/
+theorem parse_in_sequence_iff {it : Item} (h : Built it) (isRoot isSr : Bool) (hsr : isRoot = true → isSr = true) :
+    parseTop (serialise it) isRoot isSr = .ok it ↔
+      ((isRoot = false ∧ isSr = true ∧ has "RelationshipType" it.attrs = true) ∨
+       (isRoot = false ∧ isSr = false ∧ has "RelationshipType" it.attrs = false) ∨
+       (isRoot = true ∧ isSr = true ∧ has "RelationshipType" it.attrs = false ∧ it.cls = .container)) := by
+  constructor
+  · intro hp
+    have no : ¬ (∃ e, parseTop (serialise it) isRoot isSr = .error e) := by
+      rintro ⟨e, he⟩; rw [hp] at he; cases he
+    rcases Bool.eq_false_or_eq_true isRoot with hR | hR <;> rcases Bool.eq_false_or_eq_true isSr with hS | hS <;>
+      rcases Bool.eq_false_or_eq_true (has "RelationshipType" it.attrs) with hr | hr
+    · exact absurd (parse_in_sequence_refused h _ _ (Or.inr (Or.inr (Or.inl ⟨hR, hS, hr⟩)))) no
+    · by_cases hc : it.cls = .container
+      · exact Or.inr (Or.inr ⟨hR, hS, hr, hc⟩)
+      · exact absurd (parse_in_sequence_refused h _ _ (Or.inr (Or.inr (Or.inr ⟨hR, hS, hr, hc⟩)))) no
+    · have := hsr hR; rw [hS] at this; cases this
+    · have := hsr hR; rw [hS] at this; cases this
+    · exact Or.inl ⟨hR, hS, hr⟩
+    · exact absurd (parse_in_sequence_refused h _ _ (Or.inr (Or.inl ⟨hR, hS, hr⟩))) no
+    · exact absurd (parse_in_sequence_refused h _ _ (Or.inl ⟨hR, hS, hr⟩)) no
+    · exact Or.inr (Or.inl ⟨hR, hS, hr⟩)
+  · exact parse_serialise_in_sequence h isRoot isSr
+
+theorem roundTrips_of_built {it : Item} {c : Cls} (hb : Built it) (hc : it.cls = c) : RoundTrips it c := by
+  subst hc
+  refine ⟨rfl, parse_serialise hb, parse_serialise_own_class hb, fun c' hne => SRItemsDispatch.wrong_class_refused hb c' hne, ?_, ?_⟩
+  · intro hr; exact parse_serialise_in_sequence hb false true (Or.inl ⟨rfl, rfl, hr⟩)
+  · intro hr; exact parse_serialise_in_sequence hb false false (Or.inr (Or.inl ⟨rfl, rfl, hr⟩))
+
+/-- **Round trip of the VALUE, one statement per value type, through every parsing entry point**: for each of the 15
+constructors, the item it builds — serialised and parsed by the class dispatch (`parse`), by its own class's
+`from_dataset` (`parseAs`), and by `from_sequence` with fitting flags (`parseTop`) — reports under its accessors exactly
+what the constructor was given (for all inputs; `ds` = `DS(v, auto_format=True)`, `fl` = the float32 cast), and every
+OTHER class refuses it. -/
+theorem value_roundtrip_all_types (ds fl : Rat → Rat) (name : Coded) (rel : Option String) (it : Item) :
+    (∀ v, mkCode name v rel = .ok it → RoundTrips it .code ∧ codeValue it = some v) ∧
+    (∀ v, mkText name v rel = .ok it → RoundTrips it .text ∧ strValue "TextValue" it = some v) ∧
+    (∀ v, mkPname name v rel = .ok it → RoundTrips it .pname ∧ strValue "PersonName" it = some v) ∧
+    (∀ v, mkDate name v rel = .ok it → RoundTrips it .date ∧ strValue "Date" it = some v) ∧
+    (∀ v, mkTime name v rel = .ok it → RoundTrips it .time ∧ strValue "Time" it = some v) ∧
+    (∀ v, mkDateTime name v rel = .ok it → RoundTrips it .datetime ∧ strValue "DateTime" it = some v) ∧
+    (∀ v, mkUidRef name v rel = .ok it → RoundTrips it .uidref ∧ strValue "UID" it = some v) ∧
+    (∀ v f u q, mkNum ds name v f u q rel = .ok it → RoundTrips it .num ∧ numValue it = some (if f then v else ds v) ∧
+      numUnit it = some u ∧ numQualifier it = q) ∧
+    (∀ c t, mkContainer name c t rel = .ok it → RoundTrips it .container ∧
+      strValue "ContinuityOfContent" it = some (if c then "CONTINUOUS" else "SEPARATE") ∧ containerTemplate it = t) ∧
+    (∀ cu iu, mkComposite name cu iu rel = .ok it → RoundTrips it .composite ∧ refValue it = some (cu, iu)) ∧
+    (∀ cu iu f sg, mkImage name cu iu f sg rel = .ok it → RoundTrips it .image ∧ refValue it = some (cu, iu) ∧
+      imageFrames it = f ∧ imageSegments it = sg) ∧
+    (∀ cu iu ch, mkWaveform name cu iu ch rel = .ok it → RoundTrips it .waveform ∧ refValue it = some (cu, iu) ∧
+      waveformChannels it = ch) ∧
+    (∀ gt p o f, p.rect = true → mkScoord fl name gt p o f rel = .ok it → RoundTrips it .scoord ∧
+      scoordValue it = some (p.rows.map (List.map fl)) ∧ strValue "GraphicType" it = some gt) ∧
+    (∀ gt p fo f, p.rect = true → mkScoord3d fl name gt p fo f rel = .ok it → RoundTrips it .scoord3d ∧
+      scoord3dValue it = some (p.rows.map (List.map fl)) ∧ strValue "GraphicType" it = some gt ∧
+      strValue "ReferencedFrameOfReferenceUID" it = some fo) ∧
+    (∀ rt t, mkTcoord ds name rt (some t) rel = .ok it → RoundTrips it .tcoord ∧ tcoordValue it = some (tcoordStored ds t) ∧
+      strValue "TemporalRangeType" it = some rt) := by
+  have RT : ∀ {c : Cls}, Built it → it.cls = c → RoundTrips it c := fun hb hc => roundTrips_of_built hb hc
+  have S := accessor_scalar_types name rel it
+  refine ⟨?_, ?_, ?_, ?_, ?_, ?_, ?_, ?_, ?_, ?_, ?_, ?_, ?_, ?_, ?_⟩
+  · intro v h; exact ⟨RT (Built.code _ _ _ _ h) (SRItemsDispatch.withAttrs_cls tableOk_code h), (S.1 v h).1⟩
+  · intro v h; exact ⟨RT (Built.text _ _ _ _ h) (SRItemsDispatch.withAttrs_cls tableOk_text h), (S.2.1 v h).1⟩
+  · intro v h; exact ⟨RT (Built.pname _ _ _ _ h) (SRItemsDispatch.withAttrs_cls tableOk_pname h), (S.2.2.1 v h).1⟩
+  · intro v h; exact ⟨RT (Built.date _ _ _ _ h) (SRItemsDispatch.withAttrs_cls tableOk_date h), (S.2.2.2.1 v h).1⟩
+  · intro v h; exact ⟨RT (Built.time _ _ _ _ h) (SRItemsDispatch.withAttrs_cls tableOk_time h), (S.2.2.2.2.1 v h).1⟩
+  · intro v h; exact ⟨RT (Built.datetime _ _ _ _ h) (SRItemsDispatch.withAttrs_cls tableOk_datetime h), (S.2.2.2.2.2.1 v h).1⟩
+  · intro v h; exact ⟨RT (Built.uidref _ _ _ _ h) (SRItemsDispatch.withAttrs_cls tableOk_uidref h), (S.2.2.2.2.2.2 v h).1⟩
+  · intro v f u q h
+    have A := accessor_num ds name v f u q rel it h
+    exact ⟨RT (Built.num _ _ _ _ _ _ _ _ h) (SRItemsDispatch.withAttrs_cls tableOk_num h), A.1, A.2.2.1, A.2.2.2.1⟩
+  · intro c t h
+    have A := accessor_container name c t rel it h
+    exact ⟨RT (Built.container _ _ _ _ _ h) (SRItemsDispatch.withAttrs_cls tableOk_container h), A.1, A.2.1⟩
+  · intro cu iu h
+    exact ⟨RT (Built.composite _ _ _ _ _ h) (SRItemsDispatch.withAttrs_cls tableOk_composite h), ((accessor_references name cu iu rel it).1 h).1⟩
+  · intro cu iu f sg h
+    have A := (accessor_references name cu iu rel it).2.1 f sg h
+    exact ⟨RT (Built.image _ _ _ _ _ _ _ h) (SRItemsDispatch.withAttrs_cls tableOk_image h), A.1, A.2.1, A.2.2.1⟩
+  · intro cu iu ch h
+    have A := (accessor_references name cu iu rel it).2.2 ch h
+    exact ⟨RT (Built.waveform _ _ _ _ _ _ h) (SRItemsDispatch.withAttrs_cls tableOk_waveform h), A.1, A.2.1⟩
+  · intro gt p o f hr h
+    have A := accessor_scoord fl name gt p o f rel it hr h
+    obtain ⟨_, _, _, _, _, e⟩ := mkScoord_ok_iff fl name gt p o f rel it h
+    exact ⟨RT (Built.scoord _ _ _ _ _ _ _ _ h) (by rw [e]; rfl), A.1, A.2.2.1⟩
+  · intro gt p fo f hr h
+    have A := accessor_scoord3d fl name gt p fo f rel it hr h
+    obtain ⟨_, _, _, _, e⟩ := mkScoord3d_ok_iff fl name gt p fo f rel it h
+    exact ⟨RT (Built.scoord3d _ _ _ _ _ _ _ _ h) (by rw [e]; rfl), A.1, A.2.2.1, A.2.2.2.1⟩
+  · intro rt t h
+    have A := accessor_tcoord ds name rt t rel it h
+    obtain ⟨_, _, _, e⟩ := mkTcoord_ok_iff ds name rt (some t) rel it h
+    exact ⟨RT (Built.tcoord _ _ _ _ _ _ h) (by rw [e]; rfl), A.1, A.2.2.1⟩
+
+/-! ## Round 2: the ARGUMENT layer of the constructors (`Model/SRItemsArgs.lean`, every decision regenerated: `T13sa`) -/
+
+/-- **What the constructors build from arguments as a caller spells them is a built item** — so the round-trip,
+accessor and refusal theorems above apply to `ImageContentItem` given scalars / sequences, `WaveformContentItem` given
+sequences of sequences, `TcoordContentItem` given up to three arguments, `NumContentItem` given any accepted Python /
+numpy type, `ContainerContentItem` with `is_content_continuous` omitted. -/
+theorem argument_layer_builds (ds : Rat → Rat) (name : Coded) (rel : Option String) (it : Item) :
+    (∀ c i fr sg, mkImageA name c i fr sg rel = .ok it → Built it ∧ parse (serialise it) = .ok it ∧
+      imageFrames it = fr.map Nums.values ∧ imageSegments it = sg.map Nums.values ∧ refValue it = some (c, i)) ∧
+    (∀ c i ch, mkWaveformA name c i ch rel = .ok it → Built it ∧ parse (serialise it) = .ok it ∧
+      (waveformChannels it).map (List.map (fun q => [q.1, q.2])) = ch) ∧
+    (∀ rt pos off dts, mkTcoordA ds name rt pos off dts rel = .ok it → Built it ∧ parse (serialise it) = .ok it) ∧
+    (∀ v sp u q, mkNumA ds name v sp u q rel = .ok it → Built it ∧ parse (serialise it) = .ok it ∧
+      numValue it = some (if sp.isFloat then v else ds v)) ∧
+    (∀ c t, mkContainerA name c t rel = .ok it → Built it ∧ parse (serialise it) = .ok it ∧
+      strValue "ContinuityOfContent" it = some (if c.getD true then "CONTINUOUS" else "SEPARATE")) := by
+  refine ⟨?_, ?_, ?_, ?_, ?_⟩
+  · intro c i fr sg h
+    have hb := SRItemsArgsLemmas.built_of_mkImageA h
+    have hf : ¬ SRItemsArgsLemmas.emptySeq fr := fun e => SRItemsArgsLemmas.mkImageA_empty name c i fr sg rel (Or.inl e) it h
+    have hs : ¬ SRItemsArgsLemmas.emptySeq sg := fun e => SRItemsArgsLemmas.mkImageA_empty name c i fr sg rel (Or.inr e) it h
+    rw [SRItemsArgsLemmas.mkImageA_eq name c i fr sg rel hf hs] at h
+    have A := (accessor_references name c i rel it).2.1 _ _ h
+    exact ⟨hb, parse_serialise hb, A.2.1, A.2.2.1, A.1⟩
+  · intro c i ch h
+    have hb := SRItemsArgsLemmas.built_of_mkWaveformA h
+    refine ⟨hb, parse_serialise hb, ?_⟩
+    cases ch with
+    | none =>
+      rw [SRItemsArgsLemmas.mkWaveformA_none] at h
+      rw [((accessor_references name c i rel it).2.2 _ h).2.1]; rfl
+    | some l =>
+      have hne : l ≠ [] := fun e => SRItemsArgsLemmas.mkWaveformA_refuses name c i l rel (Or.inl e) it h
+      cases hp : allPairs l with
+      | none =>
+        exfalso
+        have : l.any (fun p => p.length != 2) = true := by
+          cases hx : l.any (fun p => p.length != 2) with
+          | true => rfl
+          | false => obtain ⟨ps, hps⟩ := (SRItemsArgsLemmas.allPairs_some_iff l).mpr hx; rw [hps] at hp; cases hp
+        obtain ⟨p, hpm, hpl⟩ := List.any_eq_true.mp this
+        exact SRItemsArgsLemmas.mkWaveformA_refuses name c i l rel (Or.inr ⟨p, hpm, by simpa using hpl⟩) it h
+      | some ps =>
+        rw [SRItemsArgsLemmas.mkWaveformA_eq name c i l ps rel hne hp] at h
+        rw [((accessor_references name c i rel it).2.2 _ h).2.1]
+        simp only [Option.map_some, SRItemsArgsLemmas.allPairs_items l ps hp]
+  · intro rt pos off dts h
+    have hb := SRItemsArgsLemmas.built_of_mkTcoordA h
+    exact ⟨hb, parse_serialise hb⟩
+  · intro v sp u q h
+    have hb := SRItemsArgsLemmas.built_of_mkNumA h
+    refine ⟨hb, parse_serialise hb, ?_⟩
+    cases hbt : sp.baseType with
+    | none => exact absurd h (SRItemsArgsLemmas.mkNumA_refuses ds name v sp u q rel hbt it)
+    | some t =>
+      rw [SRItemsArgsLemmas.mkNumA_eq ds name v sp u q rel (by simp [hbt])] at h
+      exact (accessor_num ds name v sp.isFloat u q rel it h).1
+  · intro c t h
+    have hb := SRItemsArgsLemmas.built_of_mkContainerA h
+    refine ⟨hb, parse_serialise hb, ?_⟩
+    cases c with
+    | none => rw [SRItemsArgsLemmas.mkContainerA_default] at h; exact (accessor_container name true t rel it h).1
+    | some c => rw [SRItemsArgsLemmas.mkContainerA_given] at h; exact (accessor_container name c t rel it h).1
+
+/-- **Empty multi-valued arguments are refused** (VM 1-n): an empty sequence of frame or segment numbers, an empty list
+of waveform channels, and a TCOORD whose FIRST given argument is empty (also when a later one holds time points) or that
+is given no argument at all.  Over the regenerated guards `Gen.imageFramesCheck`, `imageSegmentsCheck`,
+`waveformChannelsCheck`, `tcoordArgCheck`. -/
+theorem empty_multi_values_refused (ds : Rat → Rat) (name : Coded) (rel : Option String) :
+    (∀ c i fr sg, (fr = some (.seq []) ∨ sg = some (.seq [])) → ∀ it, mkImageA name c i fr sg rel ≠ .ok it) ∧
+    (∀ c i it, mkWaveformA name c i (some []) rel ≠ .ok it) ∧
+    (∀ rt pos off dts, (pos = some [] ∨ (pos = none ∧ off = some []) ∨ (pos = none ∧ off = none ∧ dts = some []) ∨
+        (pos = none ∧ off = none ∧ dts = none)) → ∀ it, mkTcoordA ds name rt pos off dts rel ≠ .ok it) := by
+  refine ⟨?_, ?_, ?_⟩
+  · intro c i fr sg h
+    apply SRItemsArgsLemmas.mkImageA_empty
+    rcases h with h | h
+    · left; rw [h]; trivial
+    · right; rw [h]; trivial
+  · intro c i
+    exact SRItemsArgsLemmas.mkWaveformA_refuses name c i [] rel (Or.inl rfl)
+  · intro rt pos off dts h
+    exact SRItemsArgsLemmas.mkTcoordA_refuses ds name rt pos off dts rel h
+
+/-- **Waveform channels must be pairs**: an item with one, three, … entries is refused (it used to be flattened and
+re-paired differently) -/
+theorem non_pair_channels_refused (name : Coded) (c i : String) (l : List (List Int)) (rel : Option String)
+    (h : ∃ p ∈ l, p.length ≠ 2) : ∀ it, mkWaveformA name c i (some l) rel ≠ .ok it :=
+  SRItemsArgsLemmas.mkWaveformA_refuses name c i l rel (Or.inr h)
+
+/-- **TCOORD: the first given argument wins** (source order of the `if / elif` chain, regenerated): sample positions
+over time offsets over date times; the value reported is that argument -/
+theorem tcoord_first_given_argument_wins (ds : Rat → Rat) (name : Coded) (rt : String) (rel : Option String) :
+    (∀ l off dts, l ≠ [] → mkTcoordA ds name rt (some l) off dts rel = mkTcoord ds name rt (some (.positions l)) rel) ∧
+    (∀ l dts, l ≠ [] → mkTcoordA ds name rt none (some l) dts rel = mkTcoord ds name rt (some (.offsets l)) rel) ∧
+    (∀ l, l ≠ [] → mkTcoordA ds name rt none none (some l) rel = mkTcoord ds name rt (some (.datetimes l)) rel) ∧
+    (∀ l off dts it, l ≠ [] → mkTcoordA ds name rt (some l) off dts rel = .ok it → tcoordValue it = some (.positions l)) := by
+  refine ⟨fun l off dts h => SRItemsArgsLemmas.mkTcoordA_positions ds name rt l off dts rel h,
+          fun l dts h => SRItemsArgsLemmas.mkTcoordA_offsets ds name rt l dts rel h,
+          fun l h => SRItemsArgsLemmas.mkTcoordA_datetimes ds name rt l rel h, ?_⟩
+  intro l off dts it hne h
+  rw [SRItemsArgsLemmas.mkTcoordA_positions ds name rt l off dts rel hne] at h
+  exact (accessor_tcoord ds name rt (.positions l) rel it h).1
+
+/-- **IMAGE: a scalar and the one-item sequence are the same item**, and any sequence spelling is its list of values -/
+theorem image_numbers_scalar_or_sequence (name : Coded) (c i : String) (x : Int) (sg : Option Nums) (rel : Option String) :
+    mkImageA name c i (some (.scalar x)) sg rel = mkImageA name c i (some (.seq [x])) sg rel ∧
+    mkImageA name c i sg (some (.scalar x)) rel = mkImageA name c i sg (some (.seq [x])) rel := by
+  constructor
+  · by_cases hs : SRItemsArgsLemmas.emptySeq sg
+    · unfold mkImageA
+      cases base .image name rel with
+      | error e => rfl
+      | ok a => simp [SRItemsArgsLemmas.numsArg_frames, SRItemsArgsLemmas.numsArg_segments, hs, SRItemsArgsLemmas.emptySeq, Nums.values]
+    · rw [SRItemsArgsLemmas.mkImageA_eq _ _ _ _ _ _ (by simp [SRItemsArgsLemmas.emptySeq]) hs,
+          SRItemsArgsLemmas.mkImageA_eq _ _ _ _ _ _ (by simp [SRItemsArgsLemmas.emptySeq]) hs]
+      rfl
+  · by_cases hs : SRItemsArgsLemmas.emptySeq sg
+    · unfold mkImageA
+      cases base .image name rel with
+      | error e => rfl
+      | ok a => simp [SRItemsArgsLemmas.numsArg_frames, hs]
+    · rw [SRItemsArgsLemmas.mkImageA_eq _ _ _ _ _ _ hs (by simp [SRItemsArgsLemmas.emptySeq]),
+          SRItemsArgsLemmas.mkImageA_eq _ _ _ _ _ _ hs (by simp [SRItemsArgsLemmas.emptySeq])]
+      rfl
+
+/-- **NUM: the type guard** (`isinstance(value, (int, float))`, both regenerated): Python int / bool and float, numpy
+float64 are taken — the latter two as floats, reported exactly — numpy integers, numpy float32, Decimal and str are
+refused with TypeError -/
+theorem num_value_spellings (ds : Rat → Rat) (name : Coded) (v : Rat) (u : Coded) (q : Option Coded) (rel : Option String) :
+    (∀ sp ∈ [NumSpelling.pyInt, .pyBool], mkNumA ds name v sp u q rel = mkNum ds name v false u q rel) ∧
+    (∀ sp ∈ [NumSpelling.pyFloat, .npFloat64], mkNumA ds name v sp u q rel = mkNum ds name v true u q rel) ∧
+    (∀ sp ∈ [NumSpelling.npInt64, .npInt32, .npFloat32, .decimal, .str], ∀ it, mkNumA ds name v sp u q rel ≠ .ok it) := by
+  refine ⟨?_, ?_, ?_⟩
+  · intro sp hsp
+    simp only [List.mem_cons, List.mem_nil_iff, or_false] at hsp
+    rcases hsp with rfl | rfl <;> exact SRItemsArgsLemmas.mkNumA_eq ds name v _ u q rel rfl
+  · intro sp hsp
+    simp only [List.mem_cons, List.mem_nil_iff, or_false] at hsp
+    rcases hsp with rfl | rfl <;> exact SRItemsArgsLemmas.mkNumA_eq ds name v _ u q rel rfl
+  · intro sp hsp
+    simp only [List.mem_cons, List.mem_nil_iff, or_false] at hsp
+    rcases hsp with rfl | rfl | rfl | rfl | rfl <;> exact SRItemsArgsLemmas.mkNumA_refuses ds name v _ u q rel rfl
+
+/-- **CONTAINER: the default of `is_content_continuous` and the strings written** are the regenerated ones
+(`Gen.srDefaults`, `Gen.containerContinuity`, `Gen.containerMappingResource`) -/
+theorem container_default_and_strings (name : Coded) (c : Bool) (t rel : Option String) :
+    mkContainerA name none t rel = mkContainer name true t rel ∧ mkContainerA name (some c) t rel = mkContainer name c t rel ∧
+    mkContainer name c t rel =
+      withAttrs .container name rel
+        ([("ContinuityOfContent", .str ((Gen.containerContinuity.lookup c).getD ""))] ++
+         (match t with
+          | none => []
+          | some t => [("ContentTemplateSequence", .template Gen.containerMappingResource t)])) :=
+  ⟨SRItemsArgsLemmas.mkContainerA_default name t rel, rfl, SRItemsArgsLemmas.mkContainer_strings name c t rel⟩
+
+/-- **Read-side ties**: the hand-written `tcoordValue` tries the three attributes in the order regenerated from the
+nested `try / except` of `TcoordContentItem.value`; the hand-written `imageFrames` / `imageSegments` (`asList ∘ stored`)
+take the regenerated branch of the two IMAGE accessors (absent → None, bare value → wrapped, list → item by item) -/
+theorem tie_tcoord_read_order_and_image_branches (it : Item) :
+    tcoordValue it = tcoordValueGen it ∧
+    numsReadGen Gen.imageFramesRead (SRItemsArgsLemmas.framesAttr it) = .ok (imageFrames it) ∧
+    numsReadGen Gen.imageSegmentsRead (SRItemsArgsLemmas.segmentsAttr it) = .ok (imageSegments it) :=
+  ⟨SRItemsArgsLemmas.tcoordValue_gen it, SRItemsArgsLemmas.imageFrames_gen it, SRItemsArgsLemmas.imageSegments_gen it⟩
+
+/-- **Defaults of every optional parameter** (regenerated table `Gen.srDefaults`): every `from_dataset` copies by default,
+`from_sequence` defaults to a non-root SR sequence and copies, every optional constructor argument defaults to None and
+`is_content_continuous` to True.  TRIP-WIRE (a fingerprint of the table, decided by the kernel): the model's `parse` /
+`parseList` use the flags `false true` for nested sequences and `mkContainerA` the container default. -/
+theorem defaults_fingerprint :
+    (∀ r ∈ Gen.srDefaults, r.2.1 = "copy" → r.2.2 = "True") ∧
+    (∀ c ∈ Cls.all, defaultOf (c.pyName ++ ".from_dataset") "copy" = some "True" ∧
+      defaultOf (c.pyName ++ ".__init__") "relationship_type" = some "None") ∧
+    defaultOf "ContentSequence.from_sequence" "is_root" = some "False" ∧
+    defaultOf "ContentSequence.from_sequence" "is_sr" = some "True" ∧
+    defaultOf "ContentSequence.__init__" "is_root" = some "False" ∧ defaultOf "ContentSequence.__init__" "is_sr" = some "True" ∧
+    defaultOf "ContainerContentItem.__init__" "is_content_continuous" = some "True" ∧
+    (∀ r ∈ Gen.srDefaults, r.2.2 = "None" ∨ r.2.2 = "True" ∨ r.2.2 = "False") := by
+  refine ⟨by decide, by decide, by decide, by decide, by decide, by decide, by decide, by decide⟩
+
 /-! ## Non-vacuity: concrete items built by the model's constructors -/
 
 private def nm : Coded := { value := "121071", scheme := "DCM", meaning := "Finding", version := none }
@@ -804,5 +1132,31 @@ example : SRItemsTie.numReadGen (33/100) (some (1/3)) = some (1/3) ∧ SRItemsTi
 example : SRItemsTie.pairUpGen [1, 2, 1, 3, 4, 1] = .ok [(1, 2), (1, 3), (4, 1)] := by decide +kernel
 example : chunk Gen.scoordReshapeWidth 6 [1, 2, 3, 4, 5, 6] = [[1, 2], [3, 4], [5, 6]] ∧
     chunk Gen.scoord3dReshapeWidth 6 [1, 2, 3, 4, 5, 6] = [[1, 2, 3], [4, 5, 6]] := by decide +kernel
+
+/-- round 2, concrete inputs the real code accepts: an image reference with a TUPLE-like sequence of frames and a scalar
+segment number; three channel pairs; a TCOORD given positions AND offsets (positions win); a numpy float64; a container
+with `is_content_continuous` omitted — and the refusals: empty frames, a channel triple, empty positions, a numpy int -/
+example : (mkImageA nm "1.2.840.10008.5.1.4.1.1.2" "1.2.3" (some (.seq [3, 4])) (some (.scalar 2)) (some "CONTAINS")).toBool = true := by
+  decide +kernel
+example : (mkWaveformA nm "1.2.840.10008.5.1.4.1.1.9.1.1" "1.2.3" (some [[1, 2], [1, 3], [4, 1]]) none).toBool = true := by decide +kernel
+example : (mkTcoordA id nm "MULTIPOINT" (some [5, 6]) (some [5/2]) none (some "CONTAINS")).toBool = true := by decide +kernel
+example : (mkNumA id nm (1/3) .npFloat64 nm none none).toBool = true := by decide +kernel
+example : (mkContainerA nm none (some "1500") none).toBool = true := by decide +kernel
+example : (mkImageA nm "1.2" "1.2.3" (some (.seq [])) none none).toBool = false := by decide +kernel
+example : (mkWaveformA nm "1.2" "1.2.3" (some [[1, 2, 3]]) none).toBool = false := by decide +kernel
+example : (mkTcoordA id nm "POINT" (some []) (some [5/2]) none none).toBool = false := by decide +kernel
+example : (mkNumA id nm 5 .npInt64 nm none none).toBool = false := by decide +kernel
+/-- the 15 × 15 matrix on a concrete item: a text item parses as TextContentItem and is refused by CodeContentItem -/
+example (it : Item) (h : mkText nm "abc" (some "CONTAINS") = .ok it) :
+    parseAs .text (serialise it) = .ok it ∧ parseAs .code (serialise it) = .error .value := by
+  have hb := Built.text _ _ _ _ h
+  have hc : it.cls = .text := SRItemsDispatch.withAttrs_cls tableOk_text h
+  exact ⟨hc ▸ (wrong_class_refused_matrix.1 hb it.cls).1 rfl, (wrong_class_refused_matrix.1 hb .code).2 (by rw [hc]; decide)⟩
+example : (mkText nm "abc" (some "CONTAINS")).toBool = true := by decide +kernel
+/-- the read-side ties on concrete data: positions win over date times when both attributes are present -/
+example : tcoordValueGen (.mk .tcoord [("ReferencedDateTime", .strs ["20200102"]), ("ReferencedSamplePositions", .ints [7])] none)
+    = some (.positions [7]) := by decide +kernel
+example : numsReadGen Gen.imageFramesRead (some [7]) = .ok (some [7]) ∧ numsReadGen Gen.imageFramesRead (some [7, 8]) = .ok (some [7, 8]) ∧
+    numsReadGen Gen.imageFramesRead none = .ok none := by decide +kernel
 
 end HdVerif.C13
